@@ -164,6 +164,9 @@ unsigned int Interpolation::Locate(double x)
 	{
 		// Use Bisection() or the Hunt method, depending of the last calls were correlated.
 		j = correlated_calls ? Hunt(x) : Bisection(x, 0, N - 1);
+		// A tabulated abscissa is always the left end of its interval (as Bisection() returns it), also when hunting upwards.
+		if(j < N - 2 && x == x_values[j + 1])
+			j++;
 	}
 	// Check if the points are still correlated.
 	correlated_calls = (fabs(j - jLast) < 10);
